@@ -488,7 +488,9 @@ impl Drop for Version {
 
             if self.epoch != inner.epoch {
                 // TODO: precisely pass the epoch number that can be vacuum.
-                self.tx.send(()).unwrap();
+                // (After shutdown there is no vacuum task to wake any more: unpinning must not
+                // panic then - a writer unpins after its commit is already durable.)
+                let _ = self.tx.send(());
             }
         }
     }
